@@ -127,6 +127,23 @@ def programs(tier: str):
                     {"opt": [False, trs[2], "c"], "parent": 1, "place": pc},
                 ]
             }
+    # LONG names (64, 65, 200, 1000 characters; with spaces / formatting characters) at the root, in
+    # a nested scope, in both
+    long_names = ["n" * 64, "n" * 65, "long name " * 20, "x" * 1000, "%s" * 40]
+    for nm in long_names:
+        for lg in (False, True):
+            yield {"nodes": [{"opt": [lg, 0, nm], "parent": None, "place": "root"}]}
+        for place in ("inline", "spawn"):
+            yield {"nodes": [{"opt": [False, 0, "a"], "parent": None, "place": "root"}, {"opt": [False, 1, nm], "parent": 0, "place": place}]}
+            yield {"nodes": [{"opt": [False, 1, nm], "parent": None, "place": "root"}, {"opt": [False, 0, nm[::-1]], "parent": 0, "place": place}]}
+    # MANY scopes: chains, stars and sequences of outermost scopes with 9 .. 40 (100) nodes: unique
+    # identifiers, inherited vs fresh trace ids at scale
+    for n in (9, 17, 20, 40) if tier == "quick" else (9, 17, 20, 33, 40, 100):
+        yield {"nodes": [{"opt": [False, 0, f"s{i}"], "parent": (i - 1 if i else None), "place": "root" if i == 0 else "inline"} for i in range(n)], "lean": True}
+        yield {"nodes": [{"opt": [False, 0, f"s{i}"], "parent": (0 if i else None), "place": "root" if i == 0 else ("inline" if i % 2 else "spawn")} for i in range(n)], "lean": True}
+        yield {"nodes": [{"opt": [False, i % 2, f"s{i}"], "parent": None, "place": "root"} for i in range(n)], "many_roots": True, "lean": True}
+        # requests: an outermost scope with one nested step each
+        yield {"nodes": [{"opt": [False, 0, f"s{i}"], "parent": (None if i % 2 == 0 else i - 1), "place": "root" if i % 2 == 0 else "inline"} for i in range(n)], "many_roots": True, "lean": True}
     if tier == "thorough":
         opts = _node_opts(["a", "%s"], traces=(0, 1))
         for a in opts:
@@ -316,9 +333,10 @@ def execute(program, ch: Chooser) -> Result:  # noqa: C901, PLR0915
         return ("fresh", None)
 
     def log_all(where: int | None, pos: str) -> None:
+        lean = program.get("lean")
         for lname, lno in LEVELS:
-            for msg, args in FORMS:
-                for with_exc in (False, True):
+            for msg, args in FORMS[:2] if lean else FORMS:
+                for with_exc in (False,) if lean else (False, True):
                     if with_exc and lname == "info":
                         continue
                     if with_exc and (msg, lname) not in (("MSG m %s", "error"), ("MSG m", "warning"), ("MSG %(k)s", "debug")):
@@ -413,8 +431,9 @@ def execute(program, ch: Chooser) -> Result:  # noqa: C901, PLR0915
 
     async def main() -> None:
         log_all(None, "before")
-        if nodes:
-            await run_node(0)
+        for r_, n_ in enumerate(nodes):
+            if n_["parent"] is None and (r_ == 0 or program.get("many_roots")):
+                await run_node(r_)  # several outermost scopes, one after the other
         log_all(None, "after")
 
     try:
@@ -512,7 +531,12 @@ def execute(program, ch: Chooser) -> Result:  # noqa: C901, PLR0915
                     )
         ids = [m.identifier for m in metrics_of.values()]
         if len(set(ids)) != len(ids):
-            viols.append(viol("tagged", "identifier-not-unique", "pairwise distinct", ids))
+            dup = next(x for x in ids if ids.count(x) > 1)
+            viols.append(viol("tagged", "identifier-not-unique", "pairwise distinct", {"scopes": len(ids), "repeated at (0-based)": [k for k, x in enumerate(ids) if x == dup]}))
+        # every outermost scope without an own trace id gets a FRESH one
+        fresh = [m.trace_id for i, m in metrics_of.items() if nodes[i]["parent"] is None and nodes[i]["opt"][1] == 0]
+        if len(set(fresh)) != len(fresh):
+            viols.append(viol("trace-id", "fresh-id-repeats", "pairwise distinct ids for outermost scopes", {"outermost scopes": len(fresh), "distinct ids": len(set(fresh))}))
         # an outermost scope without own id gets a fresh (non-empty) one
         for i, m in metrics_of.items():
             if not m.trace_id and nodes[i]["opt"][1] != 2:
